@@ -188,7 +188,7 @@ var opTable = pscmp.NewOpTable()
 func splitFamily(maxSplits int, budget time.Duration) mc.Family {
 	var progs []corpus.Input
 	for _, in := range corpus.Programs() {
-		if in.Tokens != nil && len(in.Tokens) <= 120 {
+		if in.Tokens != nil && len(in.Tokens) <= 200 {
 			progs = append(progs, in)
 		}
 	}
